@@ -32,7 +32,8 @@ type switchboard struct {
 
 	conns      sync.Map
 	connsCount uint32
-	addConnM   sync.Mutex // serialises addConn so that ids are dense and published after the store
+	addConnM   sync.Mutex    // serialises addConn so that ids are dense and published after the store
+	txTurn     chan struct{} // capacity 1: one sender of the session at a time waits at the rate limit
 	randPool   sync.Pool
 
 	broken uint32
@@ -43,6 +44,7 @@ func makeSwitchboard(sesh *Session) *switchboard {
 		session:  sesh,
 		strategy: uniformSpread,
 		valve:    sesh.Valve,
+		txTurn:   make(chan struct{}, 1),
 		randPool: sync.Pool{New: func() interface{} {
 			var state [32]byte
 			common.CryptoRandRead(state[:])
@@ -75,7 +77,17 @@ func (sb *switchboard) addConn(conn net.Conn) {
 
 // a pointer to assignedConn is passed here so that the switchboard can reassign it if that conn isn't usable
 func (sb *switchboard) send(data []byte, assignedConn *net.Conn) (n int, err error) {
+	// The senders of a session take their turns at the user's rate limit one at a time. A turn reserves its tokens
+	// at once and cannot hand them back: if all senders reserved together, a session closed while they wait would
+	// leave the user's other sessions waiting behind tokens for frames that are never sent. One at a time, and
+	// not at all once the switchboard is broken, at most one frame's worth is lost.
+	sb.txTurn <- struct{}{}
+	if atomic.LoadUint32(&sb.broken) == 1 {
+		<-sb.txTurn
+		return 0, errBrokenSwitchboard
+	}
 	sb.valve.txWait(len(data))
+	<-sb.txTurn
 	if atomic.LoadUint32(&sb.broken) == 1 {
 		return 0, errBrokenSwitchboard
 	}
